@@ -20,6 +20,11 @@ def main():
             d = os.path.join(src, pid)
             if not re.fullmatch(r"C\d\d", pid) or not os.path.exists(os.path.join(d, "patch.diff")):
                 continue
+            pd = open(os.path.join(d, "patch.diff")).read()
+            sroot = os.path.join(VERIF, "seeded")
+            if any(x.startswith(pid + "-") and open(os.path.join(sroot, x, "patch.diff")).read() == pd
+                   for x in (os.listdir(sroot) if os.path.isdir(sroot) else [])):
+                print(pid, "already imported"); continue
             scratch = "/root/work/seedchk-%s-%d" % (pid, os.getpid())
             sh("git -C /repo worktree add -q --detach %s" % scratch)
             try:
